@@ -362,12 +362,18 @@ func (w *World) Prelude(quant bool) string {
 		if quant && len(s) >= 1 && len(s) <= 64 {
 			// extensionality towards the literal: a sequence with these elements is the literal
 			// (lets a []byte{...} composite literal in the code meet a string literal in a contract)
-			var conj []string
-			conj = append(conj, fmt.Sprintf("(= (%s_len s) %d)", SSeqI, len(s)))
-			for k := 0; k < len(s); k++ {
-				conj = append(conj, fmt.Sprintf("(= (%s_idx s %d) %d)", SSeqI, k, s[k]))
+			// (triggered by sequences built element by element only: upd and build terms)
+			for _, shape := range []struct{ vars, term string }{
+				{"(s0 " + SSeqI + ") (i Int) (v Int)", "(" + SSeqI + "_upd s0 i v)"},
+				{"(s0 " + SSeqI + ") (v Int)", "(" + SSeqI + "_build s0 v)"},
+			} {
+				var conj []string
+				conj = append(conj, fmt.Sprintf("(= (%s_len %s) %d)", SSeqI, shape.term, len(s)))
+				for k := 0; k < len(s); k++ {
+					conj = append(conj, fmt.Sprintf("(= (%s_idx %s %d) %d)", SSeqI, shape.term, k, s[k]))
+				}
+				fmt.Fprintf(&b, "(assert (forall (%s) (! (=> (and %s) (= %s %s)) :pattern (%s))))\n", shape.vars, strings.Join(conj, " "), shape.term, c, shape.term)
 			}
-			fmt.Fprintf(&b, "(assert (forall ((s %s)) (! (=> (and %s) (= s %s)) :pattern ((%s_len s)))))\n", SSeqI, strings.Join(conj, " "), c, SSeqI)
 		}
 	}
 	var hs []string
